@@ -37,6 +37,7 @@ def run(ck):
     ck.rule("C01.R6", "every new collector is registered (register_dispatch)", floor=6)
     ck.rule("C01.R7", "who may write MAX_LEVEL / callsite interest", floor=4)
     ck.rule("C01.R8", "STATIC_MAX_LEVEL table under each max_level feature", floor=18 if ck.tier == "thorough" else 0)
+    ck.rule("C01.R10", "interest rebuilds, collector registration and first-hit registration are serialised by the registry lock (as C04.R1)", floor=3)
     ck.rule("C01.R9", "the callsite registry never loses a registered callsite (lock-free push/walk, as C04.R3)", floor=5)
     F = Facts("default")
     ck.configs.append("default")
@@ -44,6 +45,8 @@ def run(ck):
     # forever, so the list's push (link, CAS, retry from the observed head) and walk are premises of this property
     from rules import C04
     C04.r3(ck, F, rid="C01.R9")
+    # ... and a rebuild must not run concurrently with a registration or another rebuild (C04.R1's critical sections)
+    C04.r1(ck, F, rid="C01.R10")
     r2(ck, F)
     r3(ck, F)
     r4(ck, F)
